@@ -33,9 +33,11 @@ def gen_script(rng, kind):
         res = "disc:%d" % rng.choice([3005, 3501, 3507, 3000, 4999])
     elif r < 0.79:
         res = "gen"
+    elif kind == "history" and r < 0.90:
+        res = "nores"      # library-side error path (Node.History with a stale epoch)
     else:
         res = rng.choice({"subscribe": ["csr", "past", "csr"], "publish": ["nores", "nokey"],
-                          "presence": ["nores"], "presence_stats": ["nores"], "refresh": ["expired", "past", "future"],
+                          "presence": ["nores"], "presence_stats": ["nores"], "history": ["nores", "nores"], "refresh": ["expired", "past", "future"],
                           "sub_refresh": ["past", "future"]}.get(kind, ["ok"]))
     return mode + ":" + res
 
